@@ -35,6 +35,8 @@ def run(ctx):
     # alias chains across two modules ending in every kind of type: what a visitor is shown for a field typed by the first alias is
     # the final type and what is nested in it
     ctx.tlc("MC_AliasChain", "MC_AliasChain_" + ctx.tier, replay="aliaschain", coverage=False)
+    # two references spelled alike in two modules (C03's arrangements): walking each file shows the type ITS reference designates
+    ctx.tlc("MC_TwoRefs", "MC_TwoRefs", replay="scope", coverage=False, env={"VERIF_SCOPE_MODE": "visit"}, label="MC_TwoRefs(visited types)")
     # (T) every recorded walk against the machine run on the model's element tree of the file
     trace = ctx.collect_events("visit")
     ctx.validate_events("Trace_Visitor", trace, parallel=8)
